@@ -189,7 +189,8 @@ class C07(Prop):
             if s2 != s:
                 v.bad('magnitude-unsound', '%s [%s]: robustness %r at t=%s (verdict %s) but the trace %s, which differs '
                       'from %s by less than %r everywhere, has verdict %s' % (
-                          text, kind, rho, float(t), s, shown, case.get('data') or case.get('signals'), abs(rho), s2))
+                          text, kind, rho, float(t), s, shown, case.get('data') or case.get('signals'), abs(rho), s2),
+                      known)
                 return v
         return v
 
